@@ -105,6 +105,10 @@ type Scenario struct {
 	Tweak func(a *ap.App)
 	// request shape overrides
 	Method, CType, Accept string
+	// Scheme, if set to something other than https, runs the scenario in a world whose own IRIs use
+	// that scheme, through the ...Scheme entry points (PostInboxScheme, PostOutboxScheme,
+	// NewActivityStreamsHandlerScheme).
+	Scheme string
 }
 
 // RunOut is what one request produced.
@@ -125,6 +129,9 @@ func (sc *Scenario) World() *ap.App {
 	a := BaseWorld()
 	if sc.Tweak != nil {
 		sc.Tweak(a)
+	}
+	if sc.Scheme != "" && sc.Scheme != "https" {
+		a.UseScheme(sc.Scheme)
 	}
 	return a
 }
@@ -150,14 +157,26 @@ func (sc *Scenario) OnReq(a *ap.App, t *mc.T, req *ap.Req) *RunOut {
 	if body == nil && sc.Body != nil {
 		body = ap.MustJSON(sc.Body)
 	}
+	alt := a.LocalScheme != "" && a.LocalScheme != "https"
+	if alt {
+		body = []byte(a.RewriteLocal(string(body)))
+	}
 	call := func() {
 		switch sc.Entry {
 		case "PostInbox":
 			r := ap.Request(def(sc.Method, "POST"), sc.URL, def(sc.CType, ap.APType), sc.Accept, body)
-			out.Handled, out.Err = a.Actor(sc.Kind).PostInbox(ctx, out.W, r)
+			if alt {
+				out.Handled, out.Err = a.Actor(sc.Kind).PostInboxScheme(ctx, out.W, r, a.LocalScheme)
+			} else {
+				out.Handled, out.Err = a.Actor(sc.Kind).PostInbox(ctx, out.W, r)
+			}
 		case "PostOutbox":
 			r := ap.Request(def(sc.Method, "POST"), sc.URL, def(sc.CType, ap.APType), sc.Accept, body)
-			out.Handled, out.Err = a.Actor(sc.Kind).PostOutbox(ctx, out.W, r)
+			if alt {
+				out.Handled, out.Err = a.Actor(sc.Kind).PostOutboxScheme(ctx, out.W, r, a.LocalScheme)
+			} else {
+				out.Handled, out.Err = a.Actor(sc.Kind).PostOutbox(ctx, out.W, r)
+			}
 		case "GetInbox":
 			r := ap.Request(def(sc.Method, "GET"), sc.URL, sc.CType, def(sc.Accept, ap.APType), nil)
 			out.Handled, out.Err = a.Actor(sc.Kind).GetInbox(ctx, out.W, r)
@@ -181,7 +200,7 @@ func (sc *Scenario) OnReq(a *ap.App, t *mc.T, req *ap.Req) *RunOut {
 				return
 			}
 			out.Handled = true
-			out.Act, out.Err = fa.Send(ctx, ap.U(sc.URL), v)
+			out.Act, out.Err = fa.Send(ctx, ap.U(a.RewriteLocal(sc.URL)), v)
 		default:
 			panic("unknown entry " + sc.Entry)
 		}
